@@ -138,7 +138,7 @@ ADDENDA = {
  "C02": "Read targets are pre-filled with junk, so a read that leaves part of its target untouched shows.",
  "C04": "Also: members removed from nested structs, and one unknown list of 10050 structs (the reference is shown the encoding without it). Every struct is also decoded with all nested structs at their defaults (empty struct bodies on the wire).",
  "C05": "Also: a probe of every nesting pattern at 5,000,000 levels in the quick tier, a work bound (a decode of <= 64 KiB taking > 2 s twice counts as a hang), TUP maps and attribute values announcing negative / huge lengths, and the client receive path: a real client process behind a man in the middle that rewrites a real server's responses. Round 4: nested MAP / LIST chains in positions that really are skipped (tag 0 of the packets, a tag gap of Vt.Inner, through Vt.Opts.inn), and about 8,000 well-formed requests whose header fields go through their boundary values (message-type bits x status keys x trace/dyeing key shapes, timeout, packet type, version, servant, function, context) on the tcp and udp servers. Server deaths are attributed by bisection on fresh children over the last six batches; every announced length of every function's arguments is always in the corpus.",
- "C06": "Also the TUP attribute map (tup.UniAttribute.Decode) as pseudo struct tup.Attr.",
+ "C06": "Also the TUP attribute map (tup.UniAttribute.Decode) as pseudo struct tup.Attr. Round 6: every 1-byte string length is also re-announced as a 4-byte length (own length, remaining+1, 2^31, 2^31+n, 2^32-1, 2^32-2).",
  "C07": "Also: receivers with a read timeout and silent peers, up to three successive connections of one receiver (streams cut inside packets, reconnects), framing asked of the real AdapterProxy (a ServantProxy as client) and of tars.Protocol.",
  "C08": "Also: a second call straight after a duplicated answer, ids as seen on the wire incl. one-way requests, bursts started at the wrap point, client filter registrations (own processes). Round 4: adapters closed under outstanding calls through the manager's own registry refresh (Trace_ClientMuxAdp / MC_ClientMuxAdp; a process exit with calls in flight has no step in the model), events journalled to disk.",
  "C09": "Also: boundary configurations (read / write timeout 0, 1 ms dial timeout, ObjQueueMax 0/1, sub-millisecond deadlines) with follow-up calls, a head-of-line class with stamped packets (TimelyReply), a transport counter that is not requests minus packets. Round 4: client filters that are not transparent (ClientFilt.tla: reject, override, invoke again; every branch of the filter chain), and the timing wheel behind the read / write timeouts (TimeWheel.tla: exhaustive for 1-4 slots, runs of the real wheel recorded under tw.lock and validated, package-level arithmetic judged by Oracle_TimeWheel). One-way calls against reading / closing / refusing peers are judged at quiescence by Oracle_OneWay.",
@@ -146,7 +146,7 @@ ADDENDA = {
  "C11": "Also: server closes while calls are under way, server restarts with failed dials, receivers held longer than the gap between closes, call timeouts below the sender's 1 s tick, and the close-notification path through the real ServantProxy. A call issued while the connection in use is healthy is owed its answer too (late report of an old connection's receiver under a healthy connection).",
  "C12": "Also: one-way requests, clients that vanish with a reset, 2-3 calls of Shutdown, up to 6 connections in mixed states, requests sent during the shutdown; the client must see the notification before the end of its stream. Round 4: the response write is two steps (WriteBegin / WriteEnd); responses of 1-16 MiB to clients that start reading seconds after Shutdown, at a shutdown and at an idle close; a stream that ends inside a response is never accepted for a live client.",
  "C13": "A stress stage selects at full speed from 32 goroutines with nothing recorded in between (panic / foreign endpoint are verdicts; a strategy named by a data race report is stressed on until the race does damage or the budget is used up). Also: weight types and mixed sets, static weights 1..3, and manager histories (registry refresh / block / recover) through a real ServantProxy.",
- "C14": "Also: registry-fed proxies with endpoints blocked and recovered and registry refreshes (permuted replies, endpoints added / dropped) through the manager's own refresher; Manager.tla.",
+ "C14": "Also: registry-fed proxies with endpoints blocked and recovered and registry refreshes (permuted replies, endpoints added / dropped) through the manager's own refresher; Manager.tla. Round 6: in the universe with a shared ring point the host the map attributes the point to is removed first, then the other, both brought back and removed again (installed by Refresh and by Adds, both orders).",
  "C15": "Also: refused connections and endpoints going down and coming back, registry refreshes interleaved with blocking, probing and recovery.",
  "C16": "Also: every acyclic include graph up to 4 files (IdlIncludes), every program generated under its own assignment of the tool's switches (IdlSwitches, 3-way covering in the quick tier). Round 4: include graphs of any shape up to 3-5 files (self-includes, cycles, missing files, diamonds; IdlIncludeGraphs.tla + Oracle_IncludeGraphs), the tool run with a time limit and an output cap.",
  "C17": "Also: sessions in which the caller mutates what a getter returned, both readings of a bare key line, and the application's reading of the configuration (AppConf.tla: 53 settings with dependent defaults, one child process per document). Lines with an empty key ('= v', '==') must appear in the line listing (EmptyKeyLinesAreLinesOnly).",
